@@ -4,6 +4,7 @@ mod c02;
 mod c03;
 mod c09;
 mod c12;
+mod c13;
 mod c15;
 
 use simk::runner::{harness_error, main_for, Check};
@@ -20,6 +21,7 @@ fn main() {
         "C04" => &c03::C04,
         "C09" => &c09::C09,
         "C12" => &c12::C12,
+        "C13" => &c13::C13,
         "C15" => &c15::C15,
         o => harness_error(&format!("no check for property {o}")),
     };
